@@ -6,7 +6,7 @@ sys.path.insert(0, os.path.join(os.path.dirname(os.path.abspath(__file__)), ".."
 import engine_check  # noqa: E402
 import diff_engine  # noqa: E402
 
-LEAN_MODULES = ["KmipModel.Props.C13", "KmipModel.Props.C13Decode"]   # Drivers/WellTyped.lean, Drivers/Decode.lean
+LEAN_MODULES = ["KmipModel.Props.C13", "KmipModel.Props.C13Decode", "KmipModel.Props.ServerWF"]   # Drivers/WellTyped.lean, Drivers/Decode.lean
 LEANCHECKER = True
 RULE = ("grid: operation x stored object type (8 kinds incl. RSA pair, split key) x lifecycle state x KMIP version x "
         "parameter menu (valid, absent-optional, inapplicable-to-type, unknown / x- attribute name, every attribute "
